@@ -68,6 +68,11 @@ BASES = [
         {"op": "apply", "pool": 0, "num": 1, "args": 0, "fname": "x", "marker": True, "gname": "zz", "bodies": [{"pre": [["y", 1]]}]},
         {"op": "cancel_group", "pool": 0, "sel": ["name", "zz"]}]}], ["f"], Y(1)]}], ecb={"async": True, "y": 1}),
         _apply(0, 1, bodies=[{"pre": [Y(2)]}])]},
+    # 16: N=3, gather_and_close() is already waiting for gated workers; cancel callbacks are slow (async, gated)
+    {"pools": [{"cls": "T", "size": 3}], "steps": [_apply(0, 3, bodies=[{"pre": [G, Y(1)]}, {"pre": [Y(4)]}], ecb={}, ccb={"async": True, "gate": True}),
+                                                     {"op": "y", "k": 2}, {"op": "gac", "pool": 0, "rex": True, "waiters": 1},
+                                                     {"op": "y", "k": 3}, {"op": "open", "sel": ["w", 0]}, {"op": "y", "k": 3}, {"op": "open", "sel": ["w", 0]},
+                                                     {"op": "y", "k": 3}, {"op": "open", "sel": ["all"]}]},
 ]
 
 OPS = {
